@@ -58,6 +58,7 @@ def tyOKM : Ty → Bool
   | .ptr t' => ptrTarget t' && tyOKM t'
   | .slice e => elemTy e && !isMap e && tyOKM e
   | .map k v => keyTy k && !isSlice v && !isMap v && tyOKM v
+  | .arr _ e => isByte e
   | _ => false
 def fieldsOKM (pos : Nat) : Fields → Bool
   | .nil => true
@@ -79,6 +80,7 @@ def hasTypeM : Ty → Val → Bool
   | .slice _, .nil => true
   | .slice e, .list vs => hasTypeListM e vs
   | .map k v, .map kvs => hasTypeMapM k v kvs
+  | .arr n e, .str s => isByte e && decide (s.length = n)
   | _, _ => false
 def hasTypeListM (e : Ty) : Vals → Bool
   | .nil => true
@@ -121,6 +123,7 @@ def payloadM (wz : Bool) : Ty → FieldOpt → Val → Option WireVal
   | .str, _, .str s => if !s.isEmpty || wz then some (.len s) else none
   | .bytes, _, .str s => some (.len s)
   | .bytes, _, .nil => if wz then some (.len []) else none
+  | .arr _ _, _, .str s => if !isZeroBytes s || wz then some (.len s) else none
   | .struct fs, _, .struct vs =>
     let body := (recordsOfM wz 1 fs vs ++ recordsRM 1 fs vs).flatMap encRec
     if body.isEmpty then none else some (.len body)
